@@ -1155,6 +1155,125 @@ func stressRound(r *vh.Rand, round int) (fail *stressFail) {
 	return nil
 }
 
+// ---- readers (search only): what a thread sees at the moment the job is REPORTED done ----------
+//
+// Job.Wait / Job.IsDone look at Job.done only, without the lock.  The outcome (Status, Error,
+// Result) has to be written before done is released: a reader that is told "done" and looks at
+// the job must see the final outcome.  One poller (tight IsDone loop) and one Wait reader race
+// one finisher (error result with text / empty text / info result / plain result / Cancel).
+
+type outcome struct {
+	st  int
+	err string
+	res *com.Packet
+}
+
+func look(j *c2.Job) outcome { return outcome{int(j.Status), j.Error, j.Result} }
+
+var finisherNames = []string{"error-result", "error-result-empty", "result", "info-result", "cancel"}
+
+func readerRound(r *vh.Rand, round int) *stressFail {
+	kind := finisherNames[round%len(finisherNames)]
+	out.Count("readers", kind, true)
+	s := c2.VerifC14Session()
+	id := uint8(pktTask)
+	if kind == "info-result" {
+		id = 0x08 // task.MvTime: handle calls handleInfoResult, which reads Job.Result
+	}
+	j, err := s.Task(&com.Packet{ID: id})
+	if err != nil {
+		return &stressFail{what: "Task failed on a fresh session: " + err.Error(), key: "readers:task-failed"}
+	}
+	c2.VerifC14Drain(s)
+	p := &com.Packet{ID: c2.RvResult, Job: j.ID, Device: s.ID}
+	switch kind {
+	case "error-result":
+		p.Flags |= com.FlagError
+		p.WriteString("boom")
+	case "error-result-empty":
+		p.Flags |= com.FlagError
+		p.WriteString("")
+	case "info-result":
+		p.WriteUint8(0)
+		p.WriteInt64(int64(time.Second))
+		p.WriteInt64(0)
+		p.WriteUint32(0)
+		p.WriteUint8(0)
+	default:
+		p.WriteString("fine")
+	}
+	var (
+		start      uint32
+		wg         sync.WaitGroup
+		seenPoll   outcome
+		seenWait   outcome
+		pollPanic  string
+		delay      = r.Intn(200)
+	)
+	wg.Add(3)
+	go func() { // poller
+		defer wg.Done()
+		defer func() {
+			if x := recover(); x != nil {
+				pollPanic = fmt.Sprint(x)
+			}
+		}()
+		for atomic.LoadUint32(&start) == 0 {
+		}
+		for !j.IsDone() {
+		}
+		seenPoll = look(j)
+	}()
+	go func() { // waiter
+		defer wg.Done()
+		defer func() { recover() }()
+		j.Wait()
+		seenWait = look(j)
+	}()
+	go func() { // finisher
+		defer wg.Done()
+		defer func() { recover() }()
+		for atomic.LoadUint32(&start) == 0 {
+		}
+		for k := 0; k < delay; k++ {
+			atomic.LoadUint32(&start)
+		}
+		if kind == "cancel" {
+			j.Cancel()
+		} else {
+			c2.VerifC14Handle(s, p)
+		}
+	}()
+	atomic.StoreUint32(&start, 1)
+	fin := make(chan struct{})
+	go func() { wg.Wait(); close(fin) }()
+	select {
+	case <-fin:
+	case <-time.After(3 * time.Second):
+		return &stressFail{what: "readers racing " + kind + ": a goroutine never returned", key: "readers:hang:" + kind, actors: []string{kind}}
+	}
+	if pollPanic != "" {
+		return &stressFail{what: "IsDone panicked: " + pollPanic, key: "readers:panic", actors: []string{kind}}
+	}
+	final := look(j)
+	d := func(o outcome) string {
+		return fmt.Sprintf("(Status %d, Error %q, Result set %v)", o.st, o.err, o.res != nil)
+	}
+	if seenPoll != final {
+		return &stressFail{what: fmt.Sprintf("%s: a thread polling IsDone() was told the job is done and saw %s; the job ended as %s (outcome published before it was written)",
+			kind, d(seenPoll), d(final)), key: "readers:poll-saw-unfinished:" + kind, actors: []string{"poll-isdone", kind}}
+	}
+	if seenWait != final {
+		return &stressFail{what: fmt.Sprintf("%s: a thread released from Wait() saw %s; the job ended as %s", kind, d(seenWait), d(final)),
+			key: "readers:wait-saw-unfinished:" + kind, actors: []string{"wait", kind}}
+	}
+	want := map[string]int{"error-result": 4, "error-result-empty": 4, "result": 3, "info-result": 3, "cancel": 5}[kind]
+	if final.st != want {
+		return &stressFail{what: fmt.Sprintf("%s: final Status %d, want %d", kind, final.st, want), key: "readers:final-status:" + kind, actors: []string{kind}}
+	}
+	return nil
+}
+
 // two Task calls with the same number at the same time: both must not succeed
 func taskRace(r *vh.Rand) (both bool, detail map[string]interface{}) {
 	s := c2.VerifC14Session()
@@ -1341,6 +1460,30 @@ func main() {
 		}
 	}
 	out.Extra("stress", map[string]interface{}{"rounds": done, "seconds": time.Since(t1).Seconds(), "failures": len(failed)})
+
+	// ---- readers: released implies final (search only)
+	rrounds, rbudget := 60000, 15*time.Second
+	if thorough {
+		rrounds, rbudget = 2000000, 4*time.Minute
+	}
+	t3 := time.Now()
+	rdone := 0
+	rfailed := map[string]bool{}
+	for i := 0; i < rrounds && time.Since(t3) < rbudget; i++ {
+		f := readerRound(rng, i)
+		rdone++
+		if f == nil {
+			continue
+		}
+		if !rfailed[f.key] {
+			rfailed[f.key] = true
+			out.Fail(f.what, f.key, map[string]interface{}{"racing": f.actors, "round": i, "fresh_session_per_round": true})
+		}
+		if len(rfailed) >= 6 {
+			break
+		}
+	}
+	out.Extra("readers", map[string]interface{}{"rounds": rdone, "seconds": time.Since(t3).Seconds(), "failures": len(rfailed)})
 
 	// ---- known finding: concurrent Task calls with the same number
 	trials, hit := 0, false
